@@ -55,6 +55,10 @@ enum WState {
 enum Item {
   N(Notif),
   R,
+  /// a tagged probe callback `<tag>:<notif>` (field `behavior`: one probe per `sub`)
+  T(usize, Notif),
+  /// the answer of `peek`
+  P(String),
 }
 
 struct CtlState {
@@ -145,7 +149,7 @@ fn on_item(it: Item) {
     let m = m.borrow();
     let (ctl, me) = m.as_ref().expect("coop probe called on a foreign thread");
     let mut g = ctl.lock();
-    if let Item::N(_) = it {
+    if let Item::N(_) | Item::T(..) = it {
       refresh(&mut g);
       let hs = held_by(&g, *me);
       g.tokens[*me].push(format!("c0[{}]", hs));
@@ -169,6 +173,25 @@ impl Observer<crate::val::Val, i64> for ProbeC {
     false
   }
 }
+
+/// Probe number `0` of a `BehaviorSubject` case.
+struct ProbeT(usize);
+impl Observer<crate::val::Val, i64> for ProbeT {
+  fn next(&mut self, v: crate::val::Val) {
+    on_item(Item::T(self.0, Notif::Next(v)));
+  }
+  fn error(self, e: i64) {
+    on_item(Item::T(self.0, Notif::Error(e)));
+  }
+  fn complete(self) {
+    on_item(Item::T(self.0, Notif::Complete));
+  }
+  fn is_finished(&self) -> bool {
+    false
+  }
+}
+
+type BSubj = BehaviorSubject<crate::val::Val, SubjectThreads<crate::val::Val, i64>>;
 
 fn install_hook(ctl: &Arc<Ctl>, me: usize) {
   let c = ctl.clone();
@@ -198,6 +221,11 @@ struct Shared {
   ctx: TCtx,
   exec: SendExec,
   sub: Arc<Mutex<Option<BoxSubscriptionThreads>>>,
+  /// field `behavior <v>`: the case is about ONE `BehaviorSubject<_, SubjectThreads>` (the `pipe` is ignored):
+  /// `emit 0 <notif>` calls it, `sub` subscribes a new tagged probe (greeting included, also inside `par`),
+  /// `peek` prints the current value
+  behavior: Option<BSubj>,
+  nprobes: Arc<Mutex<usize>>,
 }
 
 /// `Exec` over the shared queue (`Queue::Shared`) holds `Arc`s only; the enum's other variant (an `Rc`
@@ -209,6 +237,27 @@ unsafe impl Send for SendExec {}
 /// One operation of the script, on whatever thread calls it.
 fn do_op(sh: &Shared, ev: &[SExp]) {
   match ev[0].atom() {
+    "emit" if sh.behavior.is_some() => {
+      let mut s = sh.behavior.clone().unwrap();
+      match Notif::parse(&ev[2]) {
+        Notif::Next(v) => s.next(v),
+        Notif::Error(e) => s.error(e),
+        Notif::Complete => s.complete(),
+      }
+    }
+    "sub" if sh.behavior.is_some() => {
+      let id = {
+        let mut n = sh.nprobes.lock().unwrap_or_else(|e| e.into_inner());
+        *n += 1;
+        *n - 1
+      };
+      // (the subscription handle is leaked: nobody unsubscribes in these cases)
+      std::mem::forget(sh.behavior.clone().unwrap().actual_subscribe(ProbeT(id)));
+    }
+    "peek" => {
+      let v = sh.behavior.as_ref().expect("peek: field behavior missing").peek();
+      on_item(Item::P(v.to_string()));
+    }
     "emit" => {
       let mut s = sh.ctx.subject(ev[1].nat());
       match Notif::parse(&ev[2]) {
@@ -328,6 +377,8 @@ fn fmt_items(items: Vec<Item>) -> String {
     .map(|i| match i {
       Item::N(n) => n.to_string(),
       Item::R => "R".to_string(),
+      Item::T(t, n) => format!("{}:{}", t, n),
+      Item::P(v) => format!("P{}", v),
     })
     .collect();
   format!("o={}", parts.join(";"))
@@ -356,7 +407,15 @@ pub fn run(case: &Case, out: &mut Out) {
   let ctx = TCtx::default();
   let exec = Exec::new(Queue::Shared(ctx.sched.clone()));
   let pipeline = build_threads(&case.field("pipe")[0], &ctx);
-  let sh = Shared { ctx, exec: SendExec(exec.clone()), sub: Arc::new(Mutex::new(None)) };
+  let behavior: Option<BSubj> =
+    if case.has("behavior") { Some(BehaviorSubject::new(crate::val::Val::parse(&case.field("behavior")[0]))) } else { None };
+  let sh = Shared {
+    ctx,
+    exec: SendExec(exec.clone()),
+    sub: Arc::new(Mutex::new(None)),
+    behavior,
+    nprobes: Arc::new(Mutex::new(0)),
+  };
   let suffix = |exec: &Exec| format!(" live={} tm={} t={}", exec.live().len(), vtime::timers_created(), vtime::now());
   for (k, ev) in case.events.iter().enumerate() {
     out.cur = k;
@@ -382,7 +441,7 @@ pub fn run(case: &Case, out: &mut Out) {
           }
         }
       }
-      "sub" => {
+      "sub" if sh.behavior.is_none() => {
         let u = pipeline.clone().actual_subscribe(ProbeC);
         *sh.sub.lock().unwrap() = Some(u);
         let (items, t) = {
